@@ -47,6 +47,7 @@ structure InitInv (g : MG) (W : List Wire) : Prop where
   regs : ∀ w, w ∈ W ↔ w.i < g.nOf w.t
   nodeId : g.nodeId = 0
   count : g.nodes.length = 2 * W.length
+  names : (g.nodes.map (·.1)).Nodup
 
 /-- the graph after `_add_reg_if_absent` of the next register of type `w.t` -/
 def addedReg (g : MG) (w : Wire) : MG :=
@@ -134,7 +135,7 @@ theorem InitInv.addReg {g : MG} {W : List Wire} (h : InitInv g W) (w : Wire) (hw
         exact hin hh
     simp only [h2, Bool.false_eq_true, if_false, gt_iff_lt, Nat.lt_irrefl]
     rfl
-  · refine ⟨⟨?_, ?_, ?_, ?_, ?_, ?_, ?_, ?_, ?_, ?_⟩, ?_, ?_, ?_, ?_⟩
+  · refine ⟨⟨?_, ?_, ?_, ?_, ?_, ?_, ?_, ?_, ?_, ?_⟩, ?_, ?_, ?_, ?_, ?_⟩
     · intro w' _
       rw [path_empty]
       simp
@@ -225,6 +226,14 @@ theorem InitInv.addReg {g : MG} {W : List Wire} (h : InitInv g W) (w : Wire) (hw
     · rw [hnodes, List.length_append, List.length_append, h.count]
       simp only [List.length_cons, List.length_nil]
       omega
+    · rw [hnodes, List.map_append, List.nodup_append]
+      refine ⟨h.names, by simp, ?_⟩
+      intro a ha b hb hab
+      simp only [List.map_cons, List.map_nil, List.mem_cons, List.not_mem_nil, or_false] at hb
+      subst hab
+      rcases hb with rfl | rfl
+      · exact hin ha
+      · exact hout ha
 
 /-- the loop over one register type of `CircuitDAG.__init__` -/
 def addAllRegs (g : MG) (t : RT) (n : Nat) : MG :=
@@ -257,7 +266,7 @@ theorem InitInv.addAll {g : MG} {W : List Wire} (h : InitInv g W) (t : RT) (h0 :
       exact hother t' ht'
 
 theorem initInv_empty : InitInv {} [] := by
-  refine ⟨⟨?_, ?_, ?_, ?_, ?_, ?_, ?_, ?_, ?_, ?_⟩, ?_, ?_, rfl, rfl⟩
+  refine ⟨⟨?_, ?_, ?_, ?_, ?_, ?_, ?_, ?_, ?_, ?_⟩, ?_, ?_, rfl, rfl, List.nodup_nil⟩
   · intro w hw; cases hw
   · intro w hw; cases hw
   · intro w hw; cases hw
@@ -304,8 +313,8 @@ def OpOK (W : List Wire) (o : Op) : Prop := (∀ w ∈ opWires o, w ∈ W) ∧ (
 def BuildInv (W : List Wire) (g : MG) (l : List Op) : Prop :=
   ∃ body, Rep0 g W body ∧ (∀ w ∈ W, RegOK g w) ∧ (∀ n ∈ g.nodes.map (·.1), ∀ k, n = .op k → k ≤ g.nodeId) ∧
     (∀ w ∈ W, wireOps g body w = l.filter (touches w)) ∧
-    (∀ w ∈ W, ∀ n ∈ body w, ∀ o, g.opOf n = some (.gate o) → ∀ w' ∈ opWires o, w' ∈ W ∧ n ∈ body w') ∧
-    g.nodes.length = 2 * W.length + l.length
+    (∀ n o, g.opOf n = some (.gate o) → ∀ w' ∈ opWires o, w' ∈ W ∧ n ∈ body w') ∧
+    (g.nodes.map (·.1)).Nodup
 
 theorem nOf_eq_of_counts (g g' : MG) (h1 : g'.ne = g.ne) (h2 : g'.np = g.np) (h3 : g'.nc = g.nc) (t : RT) :
     g'.nOf t = g.nOf t := by cases t <;> simp [MG.nOf, h1, h2, h3]
@@ -357,31 +366,30 @@ theorem BuildInv.add {W : List Wire} {g : MG} {l : List Op} (h : BuildInv W g l)
           | false => rfl
           | true => exact absurd (by simpa using hc) hwo
         simp [hwo, this]
-  · intro w hw n hn o' ho' w' hw'
-    rw [hb' w, List.mem_append] at hn
+  · intro n o' ho' w' hw'
     rw [hb' w', List.mem_append]
-    rcases hn with hn | hn
-    · obtain ⟨_, _, _, hop, _⟩ := r.bodyOp w hw n hn
-      have hmem := opOf_some_mem g n _ hop
-      rw [opOf_append_old g g' _ hnodes n hmem] at ho'
-      obtain ⟨a, b⟩ := hcomp w hw n hn o' ho' w' hw'
+    by_cases hmem : n ∈ g.nodes.map (·.1)
+    · rw [opOf_append_old g g' _ hnodes n hmem] at ho'
+      obtain ⟨a, b⟩ := hcomp n o' ho' w' hw'
       exact ⟨a, Or.inl b⟩
-    · by_cases hwo : w ∈ opWires o
-      · rw [if_pos hwo, List.mem_singleton] at hn
-        subst hn
-        have : g'.opOf (.op (g.nodeId + 1)) = some (.gate o) := by
-          rw [opOf_append g g' _ hnodes, opOf_none_of_not_mem g _ hfreshN]
-          simp
-        rw [this] at ho'
+    · rw [opOf_append g g' _ hnodes, opOf_none_of_not_mem g _ hmem] at ho'
+      simp only [Option.none_or, List.find?_cons, List.find?_nil] at ho'
+      by_cases hx : Nd.op (g.nodeId + 1) = n
+      · simp only [hx, beq_self_eq_true, Option.map_some] at ho'
         injection ho' with ho'
         injection ho' with ho'
         subst ho'
-        rw [if_pos hw']
+        rw [if_pos hw', ← hx]
         exact ⟨ho.1 w' hw', by simp⟩
-      · rw [if_neg hwo] at hn; cases hn
-  · rw [hnodes, List.length_append, hcount]
-    simp only [List.length_cons, List.length_nil, List.length_append]
-    omega
+      · have : (Nd.op (g.nodeId + 1) == n) = false := by simpa using hx
+        simp only [this] at ho'
+        cases ho'
+  · rw [hnodes, List.map_append, List.nodup_append]
+    refine ⟨hcount, by simp, ?_⟩
+    intro a ha b hb hab
+    simp only [List.map_cons, List.map_nil, List.mem_singleton] at hb
+    subst hab hb
+    exact hfreshN ha
 
 theorem build_fold (W : List Wire) : ∀ (todo : List Op) (g : MG) (done : List Op), BuildInv W g done →
     (∀ o ∈ todo, OpOK W o) →
@@ -416,8 +424,12 @@ theorem buildInv_init (ne np nc : Nat) : BuildInv (wiresN ne np nc) (MG.init ne 
     · rw [h1] at hk; cases hk
     · rw [h1] at hk; cases hk
   · intro w _; rfl
-  · intro w _ n hn; cases hn
-  · simpa using h.count
+  · intro n o ho
+    exfalso
+    obtain ⟨w, _, h1 | h1⟩ := h.nodesW n (opOf_some_mem _ _ _ ho)
+    · rw [h1, h.rep.inpOp w ‹_›] at ho; cases ho
+    · rw [h1, h.rep.outOp w ‹_›] at ho; cases ho
+  · exact h.names
 
 /-- **the multigraph of a circuit is a family of register paths** and the operations along the path of register `w` are
     the operations of the circuit that touch `w`, in the order they were added -/
